@@ -951,6 +951,8 @@ class Interp:
                     def chunk(k, terms=terms, j=j):
                         return [mk(z3.substitute(t, (j, zint(k)))) for t in terms]
                     return ChunkList(n, len(terms), chunk)
+                if isinstance(val, (Opaque, str)):
+                    return Opaque('list-of-text')        # e.g. [hex(x) for x in packet] built for a log message
                 if not V._isnum(val):
                     raise Unsupported('comprehension over symbolic source with non-numeric element')
                 isb = isinstance(val, (bool, SBool))
